@@ -1,8 +1,9 @@
 /-
 C32 — gateway/hostname.go: subdomain / DNSLink addressing.
 
-Transcribed from /repo/gateway/hostname.go (after the `fix:` commit of branch verif/gw that keeps the
-URL fragment in redirects; `keepFragment := false` is the tree before it):
+Transcribed from /repo/gateway/hostname.go (after the `fix:` commits "keep the URL fragment in subdomain
+redirects" and "use the effective host in the canonical-CID test"; the Bool arguments of `handle` /
+`toSubdomainURL` select the tree before each of them):
 
   InlineDNSLink, UninlineDNSLink     the optimised byte loops
   toDNSLabel                          63-character rule (dnsLabelMaxLength)
@@ -229,7 +230,10 @@ structure URL where
   deriving DecidableEq, Repr
 
 structure Req where
+  /-- r.Host -/
   host : Bytes
+  /-- X-Forwarded-Host header ("" = absent): when present it replaces r.Host -/
+  xfh : Bytes := []
   path : Bytes
   rawQuery : Bytes
   fragment : Bytes
@@ -315,8 +319,14 @@ inductive Out where
   | badRequest                         -- 400
   deriving DecidableEq, Repr
 
-def handle (keepFragment : Bool) (env : Env) (cfg : Config) (r : Req) : Out :=
-  let host := r.host
+/-- the host the handler works with: X-Forwarded-Host if present, else Host -/
+def effectiveHost (r : Req) : Bytes := if r.xfh.isEmpty then r.host else r.xfh
+
+/-- `keepFragment` and `cidTestOnEffectiveHost` select the code after (`true`) or before (`false`) the two
+`fix:` commits that touched this handler: "keep the URL fragment in subdomain redirects" and "use the
+effective host in the canonical-CID test" (before it the test was `strings.HasPrefix(r.Host, dnsCID)`). -/
+def handle (keepFragment cidTestOnEffectiveHost : Bool) (env : Env) (cfg : Config) (r : Req) : Out :=
+  let host := effectiveHost r
   match isKnownHostname cfg host with
   | some gw =>
     if hasPathPrefix r.path gw.paths then
@@ -342,7 +352,7 @@ def handle (keepFragment : Bool) (env : Env) (cfg : Config) (r : Req) : Out :=
           | some dnsCID =>
             -- redirect to the canonical DNS representation of the CID?
             let r1 : Option Out :=
-              if !hasPrefix r.host dnsCID then
+              if !hasPrefix (if cidTestOnEffectiveHost then host else r.host) dnsCID then
                 match toSubdomainURL keepFragment env gwHostname ((47 :: ns ++ 47 :: dnsCID) ++ r.path) r gw.inlineDNSLink with
                 | .err => some .badRequest
                 | .to u => some (.redirect u)
